@@ -28,9 +28,11 @@ def run_e1(rep, mod, tier, budget_s=None, side=None):
         errors.extend(res.get("errors", []))
         if "sample" in res and (done % max(1, len(tasks) // 6) == 0 or done <= 2):
             rep.sample(res["sample"])
-    rep.set("programs_planned", len(tasks))
-    rep.set("programs_done", done)
-    rep.set("exhaustive", (done == len(tasks)) and not capped)
+    rep.add("programs_planned", len(tasks))
+    rep.add("programs_done", done)
+    rep.set("exhaustive", rep.cov.get("exhaustive", True) and (done == len(tasks)) and not capped)
+    if capped:
+        rep.set("state_cap_hit", True)
     if done < len(tasks):
         rep.set("cap_hit", f"time budget {budget_s}s: {done}/{len(tasks)} programs fully explored")
     if errors:
